@@ -466,6 +466,19 @@ example : (((simOne Ex.cfgNat 5 Ex.draws Ex.base)[2]'(by decide)).seen.map fun f
 example : (((simOne Ex.cfgFwd 5 Ex.draws Ex.base)[2]'(by decide)).seen.map fun f => (f 8, f 9)) =
     [(0, 1), (0, 1), (0, 1), (0, 1)] := by decide
 
+/-- round 4: a lag of a *continuous* simulated covariate (`W → W_l1`, columns 7 → 16, listed first).  The lag theorems are
+    stated for an arbitrary carrier and an arbitrary drawn value -- nothing rounds it, whatever the storage type of the lag
+    column in the caller's frame was: with the draws −1234, −1233, … (thousandths) for W, the models of interval 1 see
+    `W_l1 = −1234` and those of interval 2 see `−1233`; the hypotheses of `lag_prev_record` hold for the pair -/
+def cfgW : Config Int :=
+  { Ex.cfgNat with covs := [⟨1, 5, []⟩, ⟨2, 7, []⟩], lags := [(7, 16), (0, 8), (5, 10)] }
+def drawsW : Nat → StepDraw Int := fun i =>
+  ⟨fun j => if j = 1 then (-1234 : Int) + i else if i = 1 then 1 else 0, i == 0, i == 2, true⟩
+example : (7, 16) ∈ cfgW.lags ∧ (cfgW.lags.map (·.2)).Nodup ∧ 16 ∉ predWrites cfgW ∧ 7 ∉ cfgW.lags.map (·.2) := by decide
+example : (((simOne cfgW 5 drawsW Ex.base)[1]'(by decide)).seen.map fun f => f 16) = [-1234, -1234, -1234, -1234, -1234] ∧
+    (((simOne cfgW 5 drawsW Ex.base)[2]'(by decide)).seen.map fun f => f 16) = [-1233, -1233, -1233, -1233, -1233] ∧
+    ((simOne cfgW 5 drawsW Ex.base).map fun r => r.out 7) = [-1234, -1233, -1232] := by decide
+
 /-- the lag update does not depend on the order in which the dictionary lists its pairs (distinct targets) -/
 theorem lag_order_irrelevant (l1 l2 : List (Nat × Nat)) (hperm : l1.Perm l2)
     (h1 : (l1.map (·.2)).Nodup) (e : Env V) (j : Nat) :
